@@ -132,3 +132,8 @@ Example C06_overlong_not_reported :
   recv_cycles (run (c6_step true true) c6_init (sweep_setup_extra 0 7)) = [] /\
   ack_cycles (run (c6_step true true) c6_init (sweep_setup_extra 0 (7 + 256 * 3))) = [].
 Proof. vm_compute. auto. Qed.
+(* a token cut off after one byte directly before a valid SETUP transaction does not hide it *)
+Example C06_aborted_token_then_setup :
+  recv_cycles (run (c6_step true true) c6_init (sweep_abort_then_setup 0 0)) = [27%nat] /\
+  c6_env (sweep_abort_then_setup 0 0) = true.
+Proof. vm_compute. auto. Qed.
